@@ -221,6 +221,11 @@ def run_add(fns, timeout_ms):
             ('add_keeps_width_epsilon', z3.And(w2 == width, st.fields[0] == eps)),
             ('add_returns_true_iff_untracked', val == z3.Not(sel(present, y))),
             ('add_preserves_frequency_invariant', inv_A(m2.present, f2, d2, T2, n2, w2, 2 ** 62)),
+            # table bound: width*(H(ceil(n/width))+1) is derived (Manku & Motwani, Thm. 4.2 argument) from exactly this fact:
+            # after every add each tracked x has f+delta > floor(n/width), i.e. the pruning rule has been applied in full at
+            # every window end. A window end that leaves an entry with f+delta <= floor(n/width) breaks the derivation, and the
+            # table then grows by one entry per distinct element (no bound). Decided as an inductive invariant like (A).
+            ('add_keeps_table_pruned_for_size_bound', inv_B(m2.present, f2, d2, n2, w2)),
         ]
         for tag, post in checks:
             out['queries'] += 1
@@ -230,10 +235,6 @@ def run_add(fns, timeout_ms):
                 out['cexs'][tag] = cex_of(mdl, present, f, d, T, n, width, y, {'op': 'add'})
             elif r == z3.unknown:
                 out['failed'].append('UNKNOWN:' + tag)
-        # (B) is reported, not required: a different pruning rule that still meets the size bound must not alarm
-        out['queries'] += 1
-        rb, _ = solve([pre, pc, z3.Not(inv_B(m2.present, f2, d2, n2, w2))], timeout_ms)
-        out['reported']['pruning_rule_applied_in_full'] = out['reported'].get('pruning_rule_applied_in_full', True) and (rb == z3.unsat)
         # witness: pruning removes something at a window end
         rw, _ = solve([pre, pc, UREM(n + 1, width) == 0, z3.Or([z3.And(present[k], z3.Not(m2.present[k])) for k in range(K)])], timeout_ms)
         if rw == z3.sat:
